@@ -318,6 +318,16 @@ func (m *Manager) downloadAll(deps []*chart.Dependency) error {
 			break
 		}
 
+		// Hand the repository's credentials to the downloader only when the chart
+		// lives on the repository's own scheme and host (or pass-credentials is set).
+		if !passcredentialsall {
+			ru, e1 := url.Parse(dep.Repository)
+			cu, e2 := url.Parse(churl)
+			if e1 != nil || e2 != nil || ru.Scheme != cu.Scheme || ru.Host != cu.Host {
+				username, password = "", ""
+			}
+		}
+
 		if _, ok := churls[churl]; ok {
 			fmt.Fprintf(m.Out, "Already downloaded %s from repo %s\n", dep.Name, dep.Repository)
 			continue
